@@ -46,4 +46,20 @@ theorem lexicographic_order_passes_recheck :
     let lex : List Int := [10, 10, 10, 890, 10, 10, 10, 10, 10, 10, 10, 10].map (· * 1000000)
     proper loaded = true ∧ proper lex = true ∧ monitorWeights loaded = some loaded ∧ lex ≠ loaded := by decide
 
+/-- A loader that validates with the default 0.0 but does not store it: package weights
+(0.4, 0.6, missing) sum to one, yet `StatusMonitor` meets a stage without `stage-weight`, puts its
+sentinel there, fails its own test and falls back to `1/n` for ALL stages — whereas the report of
+the real loader (`loadReport`) gives (0.4, 0.6, 0.0). -/
+theorem report_without_default_falls_back :
+    monitorFromReport (loadReportNoDefault [some 400000000, some 600000000, none]) = none ∧
+    monitorFromReport (loadReport [some 400000000, some 600000000, none]) = some [400000000, 600000000, 0] := by
+  decide
+
+/-- A denominator remembered at the first query goes stale when the stage grows: one component,
+queried, finished; the DoWhile adds two components which finish too: 3 finished over the
+remembered population 1 (progress 3.0), where the current population gives 3/3. -/
+theorem stale_population_exceeds_one :
+    let c := run ⟨[[false], [false]], [none, none]⟩ [.query 1, .fin 1 0, .grow 1 2, .fin 1 1, .fin 1 2]
+    queryStageStale c 1 = (3, 1) ∧ queryStage c 1 = (3, 3) := by decide
+
 end St4sd.C20.Witness
